@@ -98,6 +98,13 @@ CondSwallowed(M, TS, ctx, o, r) ==
     /\ <<te.o, te.r>> \in rk /\ te.c # "" /\ TupleReadValid(M, te) /\ CondVal(M, te, ctx) = "E"
     /\ \E sib \in TS \ {te} : sib.o = te.o /\ sib.r = te.r /\ TupleReadValid(M, sib) /\ CondVal(M, sib, ctx) = "T"
 
+\* Every valid conditional tuple on the evaluation's read set that cannot be evaluated belongs to an
+\* object other than the one the request names.
+CondErrorBelowRoot(M, TS, ctx, o, r) ==
+  LET rk == ReadKeys(M, TS, o, r)
+      es == {t \in TS : <<t.o, t.r>> \in rk /\ t.c # "" /\ TupleReadValid(M, t) /\ CondVal(M, t, ctx) = "E"}
+  IN es # {} /\ \A t \in es : t.o # o
+
 \* The relation (or one it depends on at type level) has an intersection with two
 \* identical operands, e.g. "viewer from parent and viewer from parent": the
 \* weighted-graph ListObjects engine fails on such models with an internal error.
@@ -142,8 +149,14 @@ CheckClass(M, TS, ev) ==
          [] ev.got = "F" -> IF ref = "F" THEN <<"OK_F", ref>>
                             ELSE IF ref = "T" THEN
                                    IF SubCycle(M, TS, ev.o, ev.r) THEN <<"KF_ExclSubtractCycle", ref>>
+                                   \* KF-10, denying direction: one of two tuples on the same object and relation that
+                                   \* match the subject cannot be evaluated (or is not met) and takes the other one down with it
+                                   ELSE IF MixedCondPair(M, TS, ev.ctx, ev.o, ev.r, ev.u) THEN <<"KF_Weight2MixedCondSameObject", ref>>
                                    ELSE <<"BAD_DENIED", ref>>
                             ELSE IF CondSwallowed(M, TS, ev.ctx, ev.o, ev.r) THEN <<"KF_CondSwallowedBySibling", ref>>
+                            \* KF-21: every tuple whose condition cannot be evaluated sits on another object than the
+                            \* requested one (it is reached through a tuple-to-userset or userset hop)
+                            ELSE IF CondErrorBelowRoot(M, TS, ev.ctx, ev.o, ev.r) THEN <<"KF_CondErrorSwallowedBelowRoot", ref>>
                             ELSE <<"BAD_E_SWALLOWED", ref>>
          [] ev.got = "ERR" ->
               IF ev.errk = "cond" /\ ref # "T" /\ TouchedE(M, TS, ev.ctx, ev.o, ev.r) THEN <<"OK_ERR", ref>>
